@@ -8,7 +8,7 @@
    central differences on the listed public operations. *)
 From Coq Require Import Reals QArith Qcanon List Bool String Psatz Arith.
 From Coquelicot Require Import Coquelicot.
-From DV Require Import Base.Field Base.LinAlg Base.RInst Model.Enums Model.AD Gen.ADTerms Gen.Euler
+From DV Require Import Base.Field Base.LinAlg Base.RInst Model.Enums Model.AD Model.GradFlowSpec Gen.ADTerms Gen.Euler Gen.GradFlow
   Proofs.C20AD Proofs.C20Q Proofs.C20Terms.
 Import ListNotations.
 Local Open Scope R_scope.
@@ -71,6 +71,44 @@ Theorem C20_total_families :
   is_derive (fun t => evalR (upd env i t) e) (env i) (evalR env (D i e)).
 Proof. exact total_families_gradients. Qed.
 Print Assumptions C20_total_families.
+
+(* 5b. what reverse-mode automatic differentiation returns.  G differentiates like D but nothing flows through a cut
+       (detach(), .data, values computed under no_grad -- ECut nodes, emitted by the translator wherever the source
+       does that).  G is the true derivative whenever no variable-to-output path crosses a cut; with such a cut it is not;
+       and no traced deepali family contains one. *)
+Theorem C20_autograd_model_sound :
+  forall (e : expr) (env : nat -> R) (i : nat),
+  cutfree e = true -> defined env e ->
+  evalR env (G i e) = evalR env (D i e) /\
+  is_derive (fun t => evalR (upd env i t) e) (env i) (evalR env (G i e)).
+Proof. intros e env i Hc Hd. split; [exact (G_eq_D e env i Hc Hd) | exact (G_sound e env i Hc Hd)]. Qed.
+Print Assumptions C20_autograd_model_sound.
+
+Theorem C20_cut_loses_gradient :
+  exists (e : expr) (env : nat -> R), defined env e /\ cutfree e = false /\
+    is_derive (fun t => evalR (upd env 0 t) e) (env 0%nat) 1 /\ evalR env (G 0 e) = 0.
+Proof. exact G_wrong_with_cut. Qed.
+Print Assumptions C20_cut_loses_gradient.
+
+Theorem C20_traced_families_cutfree : families_cutfree = true.
+Proof. exact families_cutfree_hold. Qed.
+Print Assumptions C20_traced_families_cutfree.
+
+Theorem C20_traced_families_autograd :
+  forall (name : string) (nv : nat) (outs : list expr) (e : expr) (env : nat -> R) (i : nat),
+  In (name, (nv, outs)) gen_ad_families -> In e outs -> defined env e ->
+  is_derive (fun t => evalR (upd env i t) e) (env i) (evalR env (G i e)).
+Proof. exact families_autograd_sound. Qed.
+Print Assumptions C20_traced_families_autograd.
+
+(* 5c. beyond the families that fit the expression language: for EVERY operation of the registry (all transform classes,
+       their inverses through inv(...), inv.tensor() and inv.disp(), sampling / warping, expv / compose, B-splines, spatial
+       derivatives, every loss function and loss class w.r.t. every tensor argument) the skeleton traced on the real autograd
+       graph of the working tree shows the output attached, depending on every leaf, and no detach() / .data / no_grad result
+       on any leaf-to-output path -- the premise `cutfree` of theorem 5b, established per operation at a generic input *)
+Theorem C20_gradient_flow_skeleton : gradflow_ok gen_gradflow = true /\ Nat.leb 300 (List.length gen_gradflow) = true.
+Proof. exact gradflow_holds. Qed.
+Print Assumptions C20_gradient_flow_skeleton.
 
 (* 6. the traced Euler-matrix terms are the C08 model's closed forms at c = cos, s = sin *)
 Theorem C20_euler_terms_agree :
